@@ -18,6 +18,7 @@ import (
 	"path/filepath"
 	"strings"
 	"sync"
+	"sync/atomic"
 	"time"
 
 	"github.com/rqlite/rqlite/v10/cluster"
@@ -35,6 +36,7 @@ type vnet struct {
 	blocked map[[2]string]bool // unordered pair of node ids
 	addrID  map[string]string  // raft/cluster address -> node id
 	conns   map[*vconn]struct{}
+	cut     atomic.Pointer[vcut] // one armed connection cut (see cut.go)
 }
 
 func newVnet() *vnet {
@@ -95,9 +97,13 @@ type vconn struct {
 	net.Conn
 	nw       *vnet
 	from, to string
+	hdr      byte // mux header of the dialled service (raft / cluster)
 }
 
 func (c *vconn) Read(b []byte) (int, error) {
+	if ct := c.nw.cut.Load(); ct != nil && ct.claims(c, false) {
+		return ct.read(c, b)
+	}
 	if c.nw.isBlocked(c.from, c.to) {
 		c.Conn.Close()
 		return 0, errors.New("vnet: partitioned")
@@ -106,6 +112,9 @@ func (c *vconn) Read(b []byte) (int, error) {
 }
 
 func (c *vconn) Write(b []byte) (int, error) {
+	if ct := c.nw.cut.Load(); ct != nil && ct.claims(c, true) {
+		return ct.write(c, b)
+	}
 	if c.nw.isBlocked(c.from, c.to) {
 		c.Conn.Close()
 		return 0, errors.New("vnet: partitioned")
@@ -125,6 +134,7 @@ type vdialer struct {
 	nw   *vnet
 	self string
 	d    *tcp.Dialer
+	hdr  byte
 }
 
 func (d *vdialer) Dial(addr string, timeout time.Duration) (net.Conn, error) {
@@ -138,7 +148,7 @@ func (d *vdialer) Dial(addr string, timeout time.Duration) (net.Conn, error) {
 	if err != nil {
 		return nil, err
 	}
-	vc := &vconn{Conn: c, nw: d.nw, from: d.self, to: to}
+	vc := &vconn{Conn: c, nw: d.nw, from: d.self, to: to, hdr: d.hdr}
 	d.nw.mu.Lock()
 	d.nw.conns[vc] = struct{}{}
 	d.nw.mu.Unlock()
@@ -243,7 +253,7 @@ func startNode(nw *vnet, o vNodeOpts) (*vNode, error) {
 	nw.addrID[n.Addr] = o.ID
 	nw.mu.Unlock()
 
-	raftLy := &vlayer{Listener: mux.Listen(cluster.MuxRaftHeader), d: &vdialer{nw: nw, self: o.ID, d: tcp.NewDialer(cluster.MuxRaftHeader, nil)}}
+	raftLy := &vlayer{Listener: mux.Listen(cluster.MuxRaftHeader), d: &vdialer{nw: nw, self: o.ID, d: tcp.NewDialer(cluster.MuxRaftHeader, nil), hdr: cluster.MuxRaftHeader}}
 	cfg := &store.Config{DBConf: store.NewDBConfig(), Dir: o.Dir, ID: o.ID}
 	if os.Getenv("VERIF_VERBOSE") == "" {
 		cfg.Logger = log.New(io.Discard, "", 0)
@@ -278,7 +288,7 @@ func startNode(nw *vnet, o vNodeOpts) (*vNode, error) {
 		return nil, err
 	}
 	n.Cluster = cl
-	n.Client = cluster.NewClient(&vdialer{nw: nw, self: o.ID, d: tcp.NewDialer(cluster.MuxClusterHeader, nil)}, 10*time.Second)
+	n.Client = cluster.NewClient(&vdialer{nw: nw, self: o.ID, d: tcp.NewDialer(cluster.MuxClusterHeader, nil), hdr: cluster.MuxClusterHeader}, 10*time.Second)
 	n.Proxy = proxy.New(s, n.Client)
 	if !o.NoHTTP {
 		n.Service = httpd.New("127.0.0.1:0", s, n.Client, n.Proxy, hcreds)
